@@ -116,6 +116,7 @@ type Run struct {
 	end        End
 	panics     []PanicRec
 	blocked    []string // sites of goroutines parked/alive at end
+	alive      []string
 
 	start     time.Time
 	hash      uint64
@@ -162,6 +163,7 @@ type Result struct {
 	Hash     uint64
 	Panics   []PanicRec
 	Blocked  []string
+	Alive    []string // registered goroutines that had not ended when the run ended (id@last site)
 	Probes   map[string]int
 	Faults   map[string]int
 	Multi    int
@@ -237,12 +239,18 @@ func Execute(t *testing.T, cfg Config, setup func(r *Run), driver func(r *Run)) 
 				r.blocked = append(r.blocked, g.ID+"@"+g.site)
 			}
 			sort.Strings(r.blocked)
+			for _, g := range r.gs {
+				if !g.dead {
+					r.alive = append(r.alive, g.ID+"@"+g.site)
+				}
+			}
+			sort.Strings(r.alive)
 			r.mu.Unlock()
 		})
 	}()
 	res = Result{
 		End: r.end, Steps: r.step, Virt: r.lastNow(), Hash: r.hash, Panics: r.panics,
-		Blocked: r.blocked, Probes: r.probes, Faults: r.faults, Multi: r.multi, MaxG: r.maxG,
+		Blocked: r.blocked, Alive: r.alive, Probes: r.probes, Faults: r.faults, Multi: r.multi, MaxG: r.maxG,
 		Spawned: r.spawned, Trace: r.trace, SigStep: r.SigStep, SigTime: r.SigTime, SigFired: r.sigFired,
 		Strategy: strategyNames[r.strategy],
 	}
